@@ -236,6 +236,21 @@ def strip_generics(p):
                 out.append(ch)  # opener of a qualified path: keep, contents are scanned normally
                 i += 1
                 continue
+            if p.startswith('<impl ', i):
+                # inherent-impl path component `<impl str>`: part of the name, kept verbatim
+                depth = 0
+                j = i
+                while j < n:
+                    if p[j] == '<':
+                        depth += 1
+                    elif p[j] == '>':
+                        depth -= 1
+                        if depth == 0:
+                            break
+                    j += 1
+                out.append(p[i:j + 1])
+                i = j + 1
+                continue
             # generic argument list: skip to the matching '>'
             depth = 0
             j = i
